@@ -1,11 +1,11 @@
 #!/bin/bash
-# tools/run_all_par.sh -- as run_all.sh, J checks at a time (env J, default 4; SEEDS, TIER); never writes evidence
+# tools/run_all_par.sh -- as run_all.sh, J checks at a time (env J, default 4; SEEDS, TIER); writes evidence only with NOEV= (empty)
 cd "$(dirname "$0")/.."
 TIER=${TIER:-quick}; SEEDS=${SEEDS:-"0"}; J=${J:-4}
 (cd lean && lake build Abmarl driver >/dev/null 2>&1)
 one() {
   pid=$1; s=$2
-  out=$(VERIF_NO_EVIDENCE=1 VERIF_SEED=$s ./check $pid --tier $TIER 2>&1); rc=$?
+  out=$(VERIF_NO_EVIDENCE=${NOEV-1} VERIF_SEED=$s ./check $pid --tier $TIER 2>&1); rc=$?
   echo "$pid seed=$s rc=$rc :: $(echo "$out" | grep -c '^VIOLATION') violation(s) :: $(echo "$out" | tail -1 | cut -c1-200)"
 }
 export -f one; export TIER
